@@ -102,6 +102,55 @@ def alias_set(view, d):
     return frozenset(s)
 
 
+def is_emptiness_test(view, c):
+    """the condition compares a size-like accessor (size, rows, columns, used_elements) with zero, or calls empty()"""
+    c = view.value(c)
+    if c.get("k") == "MCall" and c.get("n") == "empty":
+        return True
+    cc = pcmodel.norm_cmp(c)
+    if cc is None or cc.get("k") != "Bin" or cc.get("op") not in ("==", "<=", "<", ">", ">=", "!="):
+        return False
+    for x, y, o in ((cc["lhs"], cc["rhs"], cc["op"]), (cc["rhs"], cc["lhs"], pcmodel.FLIP[cc["op"]])):
+        xv, yv = view.value(x), view.value(y)
+        if xv.get("k") == "MCall" and xv.get("n") in ("size", "rows", "columns", "used_elements") and yv.get("k") == "Int":
+            v = int(yv["v"])
+            return (o in ("==", "<=", "!=", ">") and v == 0) or (o in ("<", ">=") and v == 1)
+    return False
+
+
+def empty_shortcut_returns(view, operands=None):
+    """statement ids of `return ...;` that are the whole then-branch of `if(<operand>.size() == 0)` / `.rows() == 0` /
+    `.columns() == 0` / `.empty()` on a vector parameter or the matrix: for an empty system every vector is the result of
+    every operator (and the filters have nothing to filter), so leaving early there is no path of interest"""
+    out = set()
+    for n in walk(view.fn.body):
+        if n.get("k") != "If" or n.get("else") is not None:
+            continue
+        t = n.get("then") or {}
+        ts = t.get("s", []) if t.get("k") == "Block" else [t]
+        if len(ts) != 1 or ts[0].get("k") != "Return":
+            continue
+        rv = view.value(ts[0].get("e") or {})
+        if featlib.is_call(rv) and not (rv.get("k") in ("Construct", "TempObj") and len(rv.get("a", [])) <= 1):
+            continue
+        c = view.value(n.get("c") or {})
+        q = None
+        cc = pcmodel.norm_cmp(c)
+        if cc is not None and cc.get("k") == "Bin" and cc.get("op") in ("==", "<=", "<"):
+            for x, y, o in ((cc["lhs"], cc["rhs"], cc["op"]), (cc["rhs"], cc["lhs"], pcmodel.FLIP[cc["op"]])):
+                yv = view.value(y)
+                if yv.get("k") == "Int" and ((o in ("==", "<=") and int(yv["v"]) == 0) or (o == "<" and int(yv["v"]) == 1)):
+                    q = view.value(x)
+        elif c.get("k") == "MCall" and c.get("n") == "empty":
+            q = c
+        if q is None or q.get("k") != "MCall" or q.get("n") not in ("size", "rows", "columns", "empty") or q.get("a"):
+            continue
+        o = view.value(q.get("obj") or {})
+        if (o.get("k") == "Ref" and o.get("dk") == "param") or pcsym.this_field(o) == "_matrix":
+            out.add(ts[0]["i"])
+    return out
+
+
 # -------------------------------------------------------------------------------------------------
 # apply(): filter follows, output defined, input const
 # -------------------------------------------------------------------------------------------------
@@ -120,6 +169,10 @@ def out_aliases(view, d):
             if iv.get("k") == "MCall" and iv.get("n") == "elements" and view.value(iv.get("obj") or {}).get("d") in ds:
                 al.add(ld)
     return al
+
+
+BYDECL = {}                   # function declaration id -> Function (set by run(); callee bodies for guard equivalence)
+INTERN_DEFINES = [False]     # set per class: the first sweep of _apply_intern defines the whole output (decided by check_sweeps)
 
 
 def use_kind(view, ref, out_d, in_d):
@@ -165,7 +218,7 @@ def use_kind(view, ref, out_d, in_d):
                 if k == "MCall" and nm in ("solve_il",) and pn == "x":
                     return "def"
                 if k == "MCall" and nm == "_apply_intern":
-                    return "write"
+                    return "def" if INTERN_DEFINES[0] else "write"
                 return "unknown-mut"  # passed by non-const reference to a callee that is not modelled
     if k == "Decl" or k == "Var":
         return "alias"
@@ -186,8 +239,9 @@ def check_apply(ck, f, inst, kind):
         if n and n.get("k") == "MCall" and n.get("n") == "filter_cor" and pcsym.this_field(view.value(n.get("obj") or {})) == "_filter" \
                 and len(n.get("a", [])) == 1 and strip(n["a"][0]).get("k") == "Ref" and strip(n["a"][0])["d"] in out_d:
             filt.append(e)
-    # (1) every normal exit passes the filter
-    _, escapes = view.flow_from(None, stop=set(filt))
+    # (1) every normal exit passes the filter (the early-out for an empty system excepted)
+    shortcut = empty_shortcut_returns(view)
+    _, escapes = view.flow_from(None, stop=set(filt) | shortcut)
     # (2) nothing writes the output after the filter
     late = []
     for fe in filt:
@@ -229,8 +283,8 @@ def check_apply(ck, f, inst, kind):
             unmodelled.append("filter method %s (line %s)" % (n.get("n"), n.get("l")))
     if any(x.get("k") == "Lambda" for x in walk(f.body)):
         unmodelled.append("lambda in apply()")
-    emptiness = [render(x)[:60] for x in walk(f.body) if x.get("k") == "If" and any(
-        y.get("k") == "MCall" and y.get("n") in ("size", "rows", "columns", "used_elements", "empty") for y in walk(x.get("c") or {}))]
+    emptiness = [render(x)[:60] for x in walk(f.body) if x.get("k") == "If" and is_emptiness_test(view, x.get("c") or {})
+                 and not any(y.get("i") in shortcut for y in walk(x))]
     ok = bool(filt) and not escapes and not late
     late_unknown = False
     for fe in filt:
@@ -279,7 +333,7 @@ def check_apply(ck, f, inst, kind):
             a = n.get("a", [])
             if a and strip(a[0]).get("k") == "Ref" and strip(a[0]).get("d") in aliases and not (len(a) > 1 and strip(a[1]).get("d") in aliases):
                 defs.append(e)
-    before, _ = view.flow_from(None, stop=set(defs))
+    before, _ = view.flow_from(None, stop=set(defs) | shortcut)
     early = [e for e in others if e in before]
     if (not defs or early) and unmodelled:
         ck.incomplete("E7.output-defined", "%s: no modelled definition of the output precedes its first use, but apply() contains a construct that may define it: %s" % (inst, unmodelled[0]))
@@ -326,6 +380,7 @@ def expected_sweep(view, which):
 def check_sweeps(ck, f, inst, kind):
     """kind: 'sor' | 'ssor'"""
     blocked = "BCSR" in f.cls
+    f = norm_c08.cursors_to_indices(f)      # lock-step pointer cursors are the index loop they stand for
     view = SweepView(f, f.params[1]["d"], f.params[2]["d"], blocked)
     try:
         loops = outer_loops(view)
@@ -379,10 +434,15 @@ def check_sweeps(ck, f, inst, kind):
         ok = sympy.expand(s.value - exp) == 0
         ck.ob("E6.sweep-form", key, ok, "row update %s  (S = sum of val[k]*out[col_ind[k]] over the triangle); documented: %s" % (s.value, text),
               f.file, s.line, sample={"value": str(s.value), "expected": str(sympy.expand(exp))})
+    # the first sweep defines every out[i] from the input and from rows it has already written (no old content is read)
+    first = sweeps[0] if sweeps else None
+    return bool(first is not None and first.dir == "asc" and first.inner.get("coeff") is not None and first.inner["guard"] == (("col_ind", "k"), "<", "i")
+                and not first.value.has(view.sym["x"]))
 
 
 def check_ilu_solve(ck, f, inst):
     blocked = "Blocked" in f.cls
+    f = norm_c08.cursors_to_indices(f)
     view = SweepView(f, f.params[0]["d"], f.params[1]["d"], blocked)
     try:
         loops = outer_loops(view)
@@ -429,6 +489,13 @@ def call_sequence_rule(ck, rule, inst, f, names, what):
     """every normal path of f passes calls named names[0], names[1], ... in this order (first occurrences),
     and no path reaches a later one without the earlier one"""
     view = FnView(f)
+    if BYDECL:
+        # `if(p >= 1) core.factorize_symbolic(p);` where factorize_symbolic itself starts with `if(p < 1) return;`:
+        # the guard repeats the callee's own early-out, skipping the call is the same as making it
+        g = norm_c08.callee_guarded_ifs(view, BYDECL)
+        if g:
+            f = norm_c08.without_skip_edges(f, view, set(g))
+            view = FnView(f)
     ids = {}
     for e in stmts_of(view):
         n = view.byid.get(e)
@@ -444,8 +511,7 @@ def call_sequence_rule(ck, rule, inst, f, names, what):
             o = n.get("obj")
             if o is None or strip(o).get("k") == "This" or pcsym.this_field(view.value(o)) in ("_ilu",):
                 opaque.append("%s() (line %s)" % (n.get("n"), n.get("l")))
-    emptiness = [render(x)[:60] for x in walk(f.body) if x.get("k") == "If" and any(
-        y.get("k") == "MCall" and y.get("n") in ("size", "rows", "columns", "used_elements", "empty") for y in walk(x.get("c") or {}))]
+    emptiness = [render(x)[:60] for x in walk(f.body) if x.get("k") == "If" and is_emptiness_test(view, x.get("c") or {})]
     if missing:
         if opaque:
             ck.incomplete(rule, "%s: %s: no call of %s, but the function calls %s, which is not modelled" % (inst, what, ", ".join(missing), opaque[0]))
@@ -453,7 +519,8 @@ def call_sequence_rule(ck, rule, inst, f, names, what):
             ck.ob(rule, inst, False, "%s: call of %s missing" % (what, ", ".join(missing)), f.file, f.line)
         return
     problems = []
-    _, esc = view.flow_from(None, stop=set(ids[names[0]]))
+    shortcut = empty_shortcut_returns(view)
+    _, esc = view.flow_from(None, stop=set(ids[names[0]]) | shortcut)
     if esc:
         problems.append("a normal exit is reachable without %s" % names[0])
     for a, b in zip(names, names[1:]):
@@ -461,7 +528,7 @@ def call_sequence_rule(ck, rule, inst, f, names, what):
         if any(e in reach for e in ids[b]):
             problems.append("%s can run before %s" % (b, a))
         for e in ids[a]:
-            _, esc = view.flow_from(e, stop=set(ids[b]))
+            _, esc = view.flow_from(e, stop=set(ids[b]) | shortcut)
             if esc:
                 problems.append("a normal exit is reachable after %s without %s" % (a, b))
         for e in ids[b]:
@@ -561,14 +628,34 @@ def check_operator_form(ck, fns, inst, kind):
                 raise NotStraight("unexpected loop")
             c = pcmodel.counting_loop(view, loop)
             l, op, r = pcmodel.cond_on(view, c["cond"], c["d"])
-            init = view.value(c["init"])
-            bound = view.value(r)
-            if init.get("k") != "Int" or pcsym.this_field(bound) != "_m" or c["step"] != 1:
-                raise NotStraight("loop %s is not a count over _m" % render(loop))
-            start = int(init["v"])
-            count = {"<=": 1 - start, "<": -start}.get(op)
-            if count is None:
+            if strip(l).get("k") != "Ref":
                 raise NotStraight("loop condition %s" % render(c["cond"]))
+
+            def lin_m(n):
+                """(coefficient of _m, constant) of a loop bound"""
+                n = view.value(n)
+                if n.get("k") == "Int":
+                    return (0, int(n["v"]))
+                if pcsym.this_field(n) == "_m":
+                    return (1, 0)
+                if n.get("k") == "Bin" and n.get("op") in ("+", "-"):
+                    a, b = lin_m(n["lhs"]), lin_m(n["rhs"])
+                    sg = 1 if n["op"] == "+" else -1
+                    return (a[0] + sg * b[0], a[1] + sg * b[1])
+                raise NotStraight("loop bound %s is not _m plus a constant" % render(n))
+            a, b = lin_m(c["init"]), lin_m(r)
+            # number of iterations: ascending from a while < / <= b, descending from a while > / >= b
+            if c["step"] == 1 and op in ("<", "<=", "!="):
+                cnt = (b[0] - a[0], b[1] - a[1] + (1 if op == "<=" else 0))
+            elif c["step"] == -1 and op in (">", ">=", "!="):
+                cnt = (a[0] - b[0], a[1] - b[1] + (1 if op == ">=" else 0))
+            else:
+                raise NotStraight("loop %s is not a count over _m" % render(loop))
+            if cnt[0] != 1:
+                raise NotStraight("loop %s is not a count over _m" % render(loop))
+            if any(x.get("k") == "Ref" and x.get("d") == c["d"] for st in c["stmts"] for x in walk(st)):
+                raise NotStraight("the loop counter is used inside the iteration")
+            count = cnt[1]
             loopinfo["count"] = count      # iterations = _m + count
             pre = dict(ve.env)
             X = pcsym.nc("X")
@@ -729,29 +816,50 @@ def store_of(view, st):
     return None
 
 
-def covers(view, st, field, d):
-    """every path through statement st stores field[<var d>]; raises NotRecognised on jumps"""
+def covers(view, st, field, d, off=0):
+    """every path through statement st stores field[<var d> + off]; raises NotRecognised on jumps"""
     if st is None:
         return False
     k = st.get("k")
     if k in ("Break", "Continue", "Return"):
         raise NotRecognised("%s inside a copy loop" % k.lower())
     if k == "Block":
-        return any(covers(view, x, field, d) for x in st.get("s", []))
+        return any(covers(view, x, field, d, off) for x in st.get("s", []))
     if k == "If":
-        return covers(view, st.get("then"), field, d) and covers(view, st.get("else"), field, d)
+        return covers(view, st.get("then"), field, d, off) and covers(view, st.get("else"), field, d, off)
     so = store_of(view, st)
     if so is not None and so[0] == field:
-        ix = view.value(so[1])
-        return ix.get("k") == "Ref" and ix.get("d") == d
+        return is_idx(view, so[1], d, off)
     return False
 
 
+def covers_row(view, st, field, d, off):
+    return covers(view, st, field, d, off)
+
+
 def is_idx(view, n, d, off=0):
-    n = strip(n)
-    if off == 0:
-        return n.get("k") == "Ref" and n.get("d") == d
-    return n.get("k") == "Bin" and n.get("op") == "+" and strip(n["lhs"]).get("d") == d and strip(n["rhs"]).get("k") == "Int" and int(strip(n["rhs"])["v"]) == off
+    """n == <variable d> + off, through never-written locals and casts"""
+    af = norm_c08.affine(view, n)
+    return af is not None and af[0] == d and af[1] == off
+
+
+def full_row_loop(view, o, is_n=None):
+    """offset r such that (loop variable + r) runs over every row 0 .. _n-1 exactly once, or None:
+    for(i = 0; i < _n; ++i), for(i = _n; i > 0;) { --i; ..., for(ii = _n; ii > 0; --ii) [row ii-1], for(ii = 1; ii <= _n; ++ii)"""
+    l, op, r = pcmodel.cond_on(view, o["cond"], o["d"])
+    if strip(l).get("k") != "Ref":
+        return None
+    init, bound = view.value(o["init"]), view.value(r)
+    is_n = is_n or (lambda x: pcsym.this_field(x) == "_n")
+    is_int = lambda x, v: x.get("k") == "Int" and int(x["v"]) == v
+    if o["step"] == 1 and o["where"] == "inc" and is_n(bound):
+        if is_int(init, 0) and op in ("<", "!="):
+            return 0
+        if is_int(init, 1) and op == "<=":
+            return -1
+    if o["step"] == -1 and is_n(init) and ((op in (">", "!=") and is_int(bound, 0)) or (op == ">=" and is_int(bound, 1))):
+        return 0 if o["where"] == "body-first" else -1
+    return None
 
 
 def check_copy_covers(ck, f, inst):
@@ -759,25 +867,25 @@ def check_copy_covers(ck, f, inst):
     fill-in positions that are not in A) and _data_d is assigned on every path of the row loop"""
     rule = "E8.refresh-covers"
     view = FnView(f)
-    rows = [s_ for s_ in f.body.get("s", []) if s_.get("k") in ("For", "While")]
+    rows = [s_ for s_ in pcmodel.flat(f.body.get("s", [])) if s_.get("k") in ("For", "While")]
     try:
         found = {}
         partial = {}
         for rl in rows:
             o = pcmodel.counting_loop(view, rl)
-            l, op, r = pcmodel.cond_on(view, o["cond"], o["d"])
-            full_rows = (o["step"] == 1 and view.value(o["init"]).get("k") == "Int" and int(view.value(o["init"])["v"]) == 0
-                         and op == "<" and pcsym.this_field(view.value(r)) == "_n")
+            roff = full_row_loop(view, o)
+            full_rows = roff is not None
+            roff = roff or 0
             i_d = o["d"]
-            for st in o["stmts"]:
+            for st in pcmodel.flat(o["stmts"]):
                 if st.get("k") in ("For", "While"):
                     c = pcmodel.counting_loop(view, st)
-                    el0 = element(view, c["init"]) if c["init"] is not None else None
+                    el0 = element(view, view.value(c["init"])) if c["init"] is not None else None
                     l2, op2, r2 = pcmodel.cond_on(view, c["cond"], c["d"])
-                    el1 = element(view, r2)
+                    el1 = element(view, view.value(r2))
                     seg = None
-                    if el0 and el1 and el0[0] == el1[0] and el0[0].startswith("_row_ptr_") and is_idx(view, el0[1], i_d) and is_idx(view, el1[1], i_d, 1) \
-                            and op2 == "<" and c["step"] == 1 and c["where"] == "inc":
+                    if el0 and el1 and el0[0] == el1[0] and el0[0].startswith("_row_ptr_") and is_idx(view, el0[1], i_d, roff) and is_idx(view, el1[1], i_d, roff + 1) \
+                            and op2 in ("<", "!=") and c["step"] == 1 and c["where"] == "inc" and strip(l2).get("k") == "Ref":
                         seg = el0[0][len("_row_ptr_"):]
                     body = {"k": "Block", "s": c["stmts"]}
                     for fam in ("l", "u"):
@@ -788,9 +896,11 @@ def check_copy_covers(ck, f, inst):
                         if seg == fam and full_rows and covers(view, body, fld, c["d"]):
                             found.setdefault(fld, st.get("l"))
                         elif fld not in found:
-                            partial.setdefault(fld, (st.get("l"), "stored only on some paths of the loop over %s" % ("row segment of " + seg.upper() if seg else render(st))))
+                            why = "the enclosing row loop `%s` does not visit every row 0 .. _n-1" % render(rl) if (seg == fam and not full_rows) else \
+                                "stored only on some paths of the loop over %s" % ("row segment of " + seg.upper() if seg else render(st))
+                            partial.setdefault(fld, (st.get("l"), why))
                 else:
-                    if full_rows and covers(view, st, "_data_d", i_d):
+                    if full_rows and covers_row(view, st, "_data_d", i_d, roff):
                         found.setdefault("_data_d", st.get("l"))
                     so = [x for x in walk(st) if store_of(view, x) and store_of(view, x)[0] in ("_data_l", "_data_u")]
                     if so:
@@ -801,6 +911,9 @@ def check_copy_covers(ck, f, inst):
     # fill / assign / memset idioms, or the array handed to another function, are not modelled
     opaque = {}
     for n in walk(f.body):
+        if n.get("k") == "MCall" and (n.get("obj") is None or strip(n["obj"]).get("k") == "This") and not n.get("cconst"):
+            for fa in ("_data_l", "_data_u", "_data_d"):
+                opaque.setdefault(fa, "the member function %s() (line %s)" % (n.get("n"), n.get("l")))
         if n.get("k") in ("MCall", "Call"):
             nm = n.get("n") or (n.get("callee") or "").rsplit("::", 1)[-1]
             operands = ([n.get("obj")] if n.get("obj") is not None else []) + list(n.get("a", []))
@@ -1077,7 +1190,7 @@ def check_level_fold(ck, fns, inst):
     found = None
     for n in walk(ins.body):
         if n.get("k") == "If":
-            c = strip(n.get("c") or {})
+            c = pcmodel.norm_cmp(view.value(n.get("c") or {})) or {}
             if c.get("k") == "Bin" and c.get("op") == "==":
                 for x, y in ((c["lhs"], c["rhs"]), (c["rhs"], c["lhs"])):
                     e = elem(x)
@@ -1114,14 +1227,39 @@ def check_level_fold(ck, fns, inst):
             rv = view.value(n["rhs"])
             if rv.get("k") == "Ref" and rv.get("d") == (col_d if which == "idx" else lev_d):
                 sets[which].append(e)
+    # vec.insert(vec.begin() + pos, value): creates the entry and stores the value at the insertion position in one step
+    wrong_insert = []
+    for e in stmts_of(view):
+        n = view.byid.get(e)
+        if n and n.get("k") == "MCall" and n.get("n") in ("insert", "emplace") and len(n.get("a", [])) == 2:
+            b = view.value(n.get("obj") or {})
+            if b.get("k") == "Ref" and b.get("d") in (idx_d, lvl_d):
+                which = "idx" if b["d"] == idx_d else "lvl"
+                it = view.value(n["a"][0])
+                while it.get("k") in ("Construct", "TempObj") and len(it.get("a", [])) == 1:
+                    it = view.value(it["a"][0])        # iterator -> const_iterator conversion
+                at_pos = False
+                if it.get("k") == "OpCall" and it.get("op") == "+" and len(it.get("a", [])) == 2:
+                    bg = view.value(it["a"][0])
+                    at_pos = bg.get("k") == "MCall" and bg.get("n") in ("begin", "cbegin") and view.value(bg.get("obj") or {}).get("d") == b["d"] and is_pos(it["a"][1])
+                rv = view.value(n["a"][1])
+                while rv.get("k") in ("Construct", "TempObj") and len(rv.get("a", [])) == 1:
+                    rv = view.value(rv["a"][0])
+                if at_pos and rv.get("k") == "Ref" and rv.get("d") == (col_d if which == "idx" else lev_d):
+                    sets[which].append(e)
+                elif at_pos and ((rv.get("k") == "Ref" and rv.get("d") in (col_d, lev_d)) or rv.get("k") == "Int"):
+                    wrong_insert.append(which)      # the other parameter / a constant is stored in the new entry
     if not pushes:
         ck.incomplete(rule, "%s::_insert: no push_back/insert that creates the new entry found" % inst)
     else:
-        bad = []
+        bad = list(wrong_insert)
         for which in ("idx", "lvl"):
-            if not sets[which] or view.flow_from(pushes[0], stop=set(sets[which]))[1]:
+            first = pushes[0]
+            if which in bad:
+                continue
+            if not sets[which] or (first not in sets[which] and view.flow_from(first, stop=set(sets[which]))[1]):
                 bad.append(which)
-        if bad and any((view.byid.get(e) or {}).get("n") in ("insert", "emplace") for e in stmts_of(view)):
+        if bad and not wrong_insert and any((view.byid.get(e) or {}).get("n") in ("insert", "emplace") for e in stmts_of(view)):
             ck.incomplete(rule, "%s::_insert: new entry created by vector::insert — not modelled" % inst)
         else:
             ck.ob(rule, "%s::_insert/new entry" % inst, not bad,
@@ -1139,6 +1277,47 @@ def check_level_fold(ck, fns, inst):
             if b.get("k") == "Ref" and b.get("dk") == "local":
                 return b["n"], b["d"], n["a"][1]
         return None
+    # roles of the local work vectors, from dataflow rather than from their names: the vector that receives
+    # push_back(_col_idx_<f>[j]) (or is finally moved into _col_idx_<f>) is the index vector of factor f, the vector that
+    # receives a constant in the same loop is its level vector
+    roles = {}          # decl id -> ('idx' | 'lvl', 'l' | 'u')
+
+    def local_vec(n):
+        n = strip(n)
+        return n if n.get("k") == "Ref" and n.get("dk") == "local" else None
+    for lp in walk(fs.body):
+        if lp.get("k") not in ("For", "While"):
+            continue
+        body = lp.get("body") or {}
+        pushes = [x for x in pcmodel.flat(body.get("s", []) if body.get("k") == "Block" else [body]) if x.get("k") == "MCall" and x.get("n") in ("push_back", "emplace_back") and x.get("a") and local_vec(x.get("obj") or {})]
+        fam_here = None
+        for x in pushes:
+            el = element(v2, v2.value(x["a"][0]))
+            if el and el[0].startswith("_col_idx_"):
+                fam_here = el[0][len("_col_idx_"):]
+                roles[local_vec(x["obj"])["d"]] = ("idx", fam_here)
+        if fam_here:
+            for x in pushes:
+                if v2.value(x["a"][0]).get("k") == "Int":
+                    roles.setdefault(local_vec(x["obj"])["d"], ("lvl", fam_here))
+    for n in walk(fs.body):
+        if n.get("k") in ("OpCall", "Assign") and (n.get("op") == "="):
+            lhs, rhs = (n["a"][0], n["a"][1]) if n["k"] == "OpCall" and len(n.get("a", [])) == 2 else (n.get("lhs"), n.get("rhs"))
+            fld = pcsym.this_field(lhs or {})
+            r = strip(rhs or {})
+            if r.get("k") == "Call" and r.get("callee", "").endswith("std::move") and r.get("a"):
+                r = strip(r["a"][0])
+            if fld and fld.startswith("_col_idx_") and local_vec(r):
+                roles.setdefault(r["d"], ("idx", fld[len("_col_idx_"):]))
+
+    def role_of(ref):
+        """('idx'|'lvl', fam) of a local vector: dataflow role, else its name (new_idx_l ...), else None"""
+        if ref.get("d") in roles:
+            return roles[ref["d"]]
+        nm = ref.get("n", "")
+        f_ = "l" if nm.endswith("_l") else ("u" if nm.endswith("_u") else None)
+        kind_ = "lvl" if "lvl" in nm else ("idx" if "idx" in nm else None)
+        return (kind_, f_) if f_ and kind_ else None
     calls = [n for n in walk(fs.body) if n.get("k") in ("MCall", "Call") and (n.get("n") == "_insert" or (n.get("callee") or "").endswith("::_insert"))]
     if not calls:
         ck.incomplete(rule, "%s::factorize_symbolic: no call of _insert found" % inst)
@@ -1170,23 +1349,29 @@ def check_level_fold(ck, fns, inst):
         if not ok_form[0] or col is None:
             ck.incomplete(rule, "%s::factorize_symbolic: _insert(…, %s, %s): column / level arguments are not array elements and sums of level entries" % (inst, render(a[3]), render(a[4])))
             continue
-        fam = lambda nm: "l" if nm.endswith("_l") else ("u" if nm.endswith("_u") else "?")
-        tf = fam(tgt_idx.get("n", ""))
+        ri, rl = role_of(tgt_idx), role_of(tgt_lvl)
+        rterms = [(role_of({"n": t[0], "d": t[1]}), t) for t in terms]
+        rcol = role_of({"n": col[0], "d": col[1]})
+        if ri is None or rl is None or rcol is None or any(r is None for r, t in rterms):
+            ck.incomplete(rule, "%s::factorize_symbolic: _insert(%s): the role (index / level vector of L or U) of a work vector could not be derived" % (inst, ", ".join(render(x) for x in a)))
+            continue
+        tf = ri[1]
         key = "%s::factorize_symbolic/insert into %s" % (inst, tf.upper())
         seen[key] = seen.get(key, 0) + 1
         if seen[key] > 1:
             key += "#%d" % seen[key]
         problems = []
-        if fam(tgt_lvl.get("n", "")) != tf or "lvl" not in tgt_lvl.get("n", "") or "idx" not in tgt_idx.get("n", ""):
+        if ri[0] != "idx" or rl != ("lvl", tf):
             problems.append("index and level vectors %s / %s are not the pair of one factor" % (tgt_idx.get("n"), tgt_lvl.get("n")))
-        tl = sorted((fam(t[0]), "lvl" in t[0]) for t in terms)
+        tl = sorted((r[1], r[0] == "lvl") for r, t in rterms)
+        lt = ut = None
         if tl != [("l", True), ("u", True)] or const[0] != 1:
             problems.append("level argument is %s; the level-of-fill recurrence is lev(L_ij) + lev(U_jk) + 1" % (" + ".join(["%s[%s]" % (t[0], render(t[2])) for t in terms] + ([str(const[0])] if const[0] else [])) or "0"))
         else:
-            lt = [t for t in terms if fam(t[0]) == "l"][0]
-            ut = [t for t in terms if fam(t[0]) == "u"][0]
+            lt = [t for r, t in rterms if r[1] == "l"][0]
+            ut = [t for r, t in rterms if r[1] == "u"][0]
             # the U level must belong to the entry whose column is inserted: same subscript as the column argument
-            if fam(col[0]) != "u" or "idx" not in col[0] or render(v2.value(col[2])) != render(v2.value(ut[2])):
+            if rcol != ("idx", "u") or render(v2.value(col[2])) != render(v2.value(ut[2])):
                 problems.append("inserted column %s[%s] and U level %s[%s] do not belong to the same entry U_jk" % (col[0], render(col[2]), ut[0], render(ut[2])))
         ck.ob(rule, key, not problems, "; ".join(problems) if problems else
               "_insert(%s, %s, ·, %s[%s], %s[%s] + %s[%s] + 1)" % (tgt_idx.get("n"), tgt_lvl.get("n"), col[0], render(col[2]), lt[0], render(lt[2]), ut[0], render(ut[2])),
@@ -1195,7 +1380,7 @@ def check_level_fold(ck, fns, inst):
     guards = []
     for n in walk(fs.body):
         if n.get("k") == "If":
-            c = strip(n.get("c") or {})
+            c = pcmodel.norm_cmp(v2.value(n.get("c") or {})) or {}     # !(ll > p) == ll <= p; named condition
             if c.get("k") == "Bin" and c.get("op") in ("<", "<=", ">", ">="):
                 l, r = v2.value(c["lhs"]), v2.value(c["rhs"])
                 lp, rp = (l.get("k") == "Ref" and l.get("d") == p_d), (r.get("k") == "Ref" and r.get("d") == p_d)
@@ -1225,13 +1410,34 @@ def check_level_fold(ck, fns, inst):
                   "entries are inserted iff level %s p (ILU(p) keeps all entries of level <= p)" % cond_insert, fs.file, g.get("l"))
     # pattern entries of A start with level 0
     for fam_ in ("l", "u"):
-        zero = [n for n in walk(fs.body) if n.get("k") == "MCall" and n.get("n") == "push_back" and strip(n.get("obj") or {}).get("n", "").endswith("lvl_" + fam_)
-                and v2.value(n["a"][0]).get("k") == "Int"]
+        zero = [n for n in walk(fs.body) if n.get("k") == "MCall" and n.get("n") in ("push_back", "emplace_back") and n.get("a") and local_vec(n.get("obj") or {})
+                and role_of(local_vec(n["obj"])) == ("lvl", fam_) and v2.value(n["a"][0]).get("k") == "Int"]
         if not zero:
             ck.incomplete(rule, "%s::factorize_symbolic: initial level of the pattern entries of %s not found" % (inst, fam_.upper()))
         else:
             vals = sorted({int(v2.value(n["a"][0])["v"]) for n in zero})
             ck.ob(rule, "%s::factorize_symbolic/level 0 of A in %s" % (inst, fam_.upper()), vals == [0], "entries of A enter %s with level %s" % (fam_.upper(), vals), fs.file, zero[0].get("l"))
+
+
+def loop_stepped_by(view, w):
+    """the loop whose induction step the increment statement w is: in the increment expression of a for-loop, or the last
+    statement of the body of a for/while loop that has no `continue` (for <-> while conversion keeps this relation)"""
+    p = view.parent.get(w.get("i"))
+    child = w
+    while p is not None:
+        k = p.get("k")
+        if k == "For" and p.get("inc") is not None and w.get("i") in {x.get("i") for x in walk(p["inc"])}:
+            return p
+        if k in ("For", "While"):
+            body = p.get("body") or {}
+            st = body.get("s", []) if body.get("k") == "Block" else [body]
+            if st and strip(st[-1]).get("i") == w.get("i") and not any(x.get("k") == "Continue" for x in walk(body)):
+                return p
+            return None
+        if k in ("If", "Switch", "Do", "Cond", "Lambda"):
+            return None
+        child, p = p, view.parent.get(p.get("i"))
+    return None
 
 
 def check_merge_cursor(ck, f, inst):
@@ -1291,10 +1497,8 @@ def check_merge_cursor(ck, f, inst):
         for w in view.writes.get(d, []):
             if not pcmodel.is_step(w):
                 continue
-            q = view.parent.get(w.get("i"))
-            while q is not None and q.get("k") != "For":
-                q = view.parent.get(q.get("i"))
-            if q is None or q.get("inc") is None or w.get("i") not in {x.get("i") for x in walk(q["inc"])}:
+            q = loop_stepped_by(view, w)
+            if q is None:
                 continue
             for c in conjuncts(q.get("c") or {}):
                 if c.get("k") == "Bin" and c.get("op") in ("<", "<=", ">", ">="):
@@ -1339,10 +1543,7 @@ def check_merge_cursor(ck, f, inst):
                 child, p = p, view.parent.get(p.get("i"))
             key = None
             verdict = None
-            for par, ch in chain:
-                if par.get("k") == "For" and par.get("inc") is not None and ch.get("i") in {x.get("i") for x in walk(par["inc"])}:
-                    loop = par
-                    break
+            loop = loop_stepped_by(view, w)
             if loop is not None:
                 cj = conjuncts(loop.get("c") or {})
                 own = [c for c in cj if mentions(c, d)]
@@ -1460,6 +1661,62 @@ def check_partial_fill_reinit(ck, facts, cls, inst):
             return None
         return "partial" if all(stores) else "full?"
 
+    def loop_ids(view, loop):
+        """statements that represent 'the loop was executed' on a path: everything inside it and, for a counter declared
+        or set in front of the loop (while form), that declaration / assignment"""
+        ids = {x.get("i") for x in walk(loop)}
+        try:
+            c = pcmodel.counting_loop(view, loop)
+            if c["d"] in view.decl_stmt and view.decl_stmt[c["d"]] not in ids:
+                ws = [w for w in view.writes.get(c["d"], []) if w.get("i") not in ids]
+                ids |= {ws[0]["i"]} if ws else {view.decl_stmt[c["d"]]}
+        except NotRecognised:
+            pass
+        return ids
+
+    def other_stores(view, g, member):
+        """stores into the member (through itself, an alias pointer or an iterator) inside loops, and calls that receive an
+        iterator / the member itself: candidates for a re-initialisation the table does not know"""
+        out = []
+        for lp in walk(g.body):
+            if lp.get("k") not in ("For", "While", "Do", "ForRange"):
+                continue
+            counter = None
+            try:
+                counter = pcmodel.counting_loop(view, lp)["d"] if lp.get("k") in ("For", "While") else None
+            except NotRecognised:
+                pass
+            for x in walk(lp):
+                tgt = None
+                if counter is not None and x.get("k") == "Assign" and strip(x["lhs"]).get("k") == "Index":
+                    af = norm_c08.affine(view, strip(x["lhs"])["idx"])
+                    if af is not None and af[0] == counter:
+                        continue        # an understood counting loop over part of the array: not a whole-array initialisation
+                if x.get("k") == "Assign" and x.get("op") == "=":
+                    rv = view.value(x["rhs"])
+                    while rv.get("k") in ("Construct", "TempObj") and len(rv.get("a", [])) == 1:
+                        rv = view.value(rv["a"][0])
+                    if rv.get("k") in ("Int", "Float") or (rv.get("k") in ("Construct", "TempObj", "ValueInit") and not rv.get("a")):
+                        tgt = strip(x["lhs"])       # a constant is stored: a (re-)initialisation, not a computation
+                if tgt is None:
+                    continue
+                while tgt.get("k") in ("Index", "Un", "OpCall"):
+                    tgt = strip(tgt.get("b") or tgt.get("e") or (tgt.get("a") or [{}])[0])
+                bm = base_member(view, tgt) or ((pcsym.this_field(tgt), True) if pcsym.this_field(tgt) else None)
+                if bm and bm[0] == member:
+                    out.append("it is written in the loop at line %s" % lp.get("l"))
+                elif tgt.get("k") == "Ref" and tgt.get("dk") == "local" and (view.locals.get(tgt["d"]) or {}).get("init") is not None:
+                    b2 = base_member(view, view.locals[tgt["d"]]["init"])
+                    if b2 and b2[0] == member:
+                        out.append("it is written through the cursor %s in the loop at line %s" % (tgt.get("n"), lp.get("l")))
+        for x in walk(g.body):
+            if x.get("k") in ("Call", "MCall") and x.get("n") not in ("data", "size", "begin", "end") and (
+                    x.get("k") == "MCall" or (x.get("callee") or "").startswith("std::") or "mem" in (x.get("callee") or "").rsplit("::", 1)[-1]):
+                for a_ in ([x.get("obj")] if x.get("k") == "MCall" and not x.get("cconst") else []) + list(x.get("a", [])):
+                    if a_ is not None and any(pcsym.this_field(y) == member for y in walk(a_) if y.get("k") == "Member") and not is_full_init(view, x, member):
+                        out.append("it is used by %s (line %s)" % (x.get("n") or (x.get("callee") or "").rsplit("::", 1)[-1], x.get("l")))
+        return out
+
     def is_full_init(view, n, member):
         """statement n (re)initialises the whole of member"""
         k = n.get("k")
@@ -1478,31 +1735,42 @@ def check_partial_fill_reinit(ck, facts, cls, inst):
                 return e.get("k") == "MCall" and e.get("n") == "end" and pcsym.this_field(e.get("obj") or {}) == member
         if k == "MCall" and nm == "assign" and pcsym.this_field(n.get("obj") or {}) == member:
             return True
-        if k == "For":
+        if k in ("For", "While"):
             try:
                 c = pcmodel.counting_loop(view, n)
-                l, op, r = pcmodel.cond_on(view, c["cond"], c["d"])
-                if view.value(c["init"]).get("k") == "Int" and int(view.value(c["init"])["v"]) == 0 and op == "<" and c["step"] == 1 and size_of_m(r):
-                    for st in c["stmts"]:
+                roff = full_row_loop(view, c, is_n=size_of_m)
+                if roff is not None:
+                    for st in pcmodel.flat(c["stmts"]):
                         st = strip(st)
                         if st.get("k") == "Assign" and st.get("op") == "=" and strip(st["lhs"]).get("k") in ("Index", "OpCall"):
                             t = strip(st["lhs"])
                             b = t["b"] if t.get("k") == "Index" else t["a"][0]
                             ix = t["idx"] if t.get("k") == "Index" else t["a"][1]
                             bm = base_member(view, b) or ((pcsym.this_field(b), True) if pcsym.this_field(b) else None)
-                            if bm and bm[0] == member and strip(ix).get("d") == c["d"]:
+                            if bm and bm[0] == member and bm[1] and is_idx(view, ix, c["d"], roff):
                                 return True
             except NotRecognised:
                 return False
         return False
-    # functions reached from init_numeric
-    ini = fns["init_numeric"]
+    # functions reached from init_numeric: the analysis units.  A unit is a function that hands the member to a gather
+    # routine; other private helpers (an extracted zeroing block, ...) are inlined into the unit that calls them.
+    vinl = norm_c08.Inliner(facts)
+
+    def is_unit(g):
+        gv = FnView(g)
+        for x in walk(g.body):
+            if x.get("k") == "MCall" and any(base_member(gv, a) for a in x.get("a", [])) and callee_store_kind(x, [bool(base_member(gv, a)) for a in x["a"]].index(True)) == "partial":
+                return True
+        return False
+    units = {nm for nm, g in fns.items() if g.body is not None and is_unit(g)} | {"init_numeric", "apply"}
+    not_unit = lambda call, cal: cal.name not in units
+    ini = vinl.inline(fns["init_numeric"], want=not_unit)
     iv = FnView(ini)
     reached = []
     for e in stmts_of(iv):
         n = iv.byid.get(e)
         if n and n.get("k") == "MCall" and (n.get("obj") is None or strip(n["obj"]).get("k") == "This") and n.get("n") in fns:
-            reached.append((fns[n["n"]], e))
+            reached.append((vinl.inline(fns[n["n"]], want=not_unit), e))
     reached.append((ini, None))
     count = 0
     for f, call_id in reached:
@@ -1531,7 +1799,7 @@ def check_partial_fill_reinit(ck, facts, cls, inst):
         for member, plist in sorted(partial.items()):
             count += 1
             inits = [e for e in stmts_of(view) if view.byid.get(e) is not None and is_full_init(view, view.byid[e], member)]
-            inits += [n["i"] for n in walk(f.body) if n.get("k") == "For" and is_full_init(view, n, member)]
+            inits += [n["i"] for n in walk(f.body) if n.get("k") in ("For", "While") and is_full_init(view, n, member)]
             first_use = [e for e, t in plist]
             ok = False
             if inits:
@@ -1539,18 +1807,18 @@ def check_partial_fill_reinit(ck, facts, cls, inst):
                 stop = set()
                 for i0 in inits:
                     nd = view.byid.get(i0)
-                    stop |= {x.get("i") for x in walk(nd)} if nd is not None and nd.get("k") == "For" else {i0}
+                    stop |= loop_ids(view, nd) if nd is not None and nd.get("k") in ("For", "While") else {i0}
                 reach, _ = view.flow_from(None, stop=stop)
                 ok = not any(e in reach for e in first_use)
             if not ok and call_id is not None:
                 # in init_numeric, before the call
                 inits2 = [e for e in stmts_of(iv) if iv.byid.get(e) is not None and is_full_init(iv, iv.byid[e], member)]
-                inits2 += [n["i"] for n in walk(ini.body) if n.get("k") == "For" and is_full_init(iv, n, member)]
+                inits2 += [n["i"] for n in walk(ini.body) if n.get("k") in ("For", "While") and is_full_init(iv, n, member)]
                 if inits2:
                     stop = set()
                     for i0 in inits2:
                         nd = iv.byid.get(i0)
-                        stop |= {x.get("i") for x in walk(nd)} if nd is not None and nd.get("k") == "For" else {i0}
+                        stop |= loop_ids(iv, nd) if nd is not None and nd.get("k") in ("For", "While") else {i0}
                     reach, _ = iv.flow_from(None, stop=stop)
                     ok = call_id not in reach
             key = "%s::%s/%s" % (inst, f.name, member)
@@ -1558,6 +1826,9 @@ def check_partial_fill_reinit(ck, facts, cls, inst):
                 ck.ob(rule, key, True, "%s is re-initialised over its whole extent before %s fills it partially" % (member, plist[0][1]), f.file, view.byid[first_use[0]].get("l"))
             elif maybe_init.get(member):
                 ck.incomplete(rule, "%s: no modelled whole-array initialisation of %s, but its base pointer is handed to %s" % (key, member, maybe_init[member][0]))
+            elif other_stores(view, f, member) or (call_id is not None and other_stores(iv, ini, member)):
+                ck.incomplete(rule, "%s: no modelled whole-array initialisation of %s, but %s, which is not one of the modelled forms (memset / std::fill / assign / counting loop over size())" % (
+                    key, member, (other_stores(view, f, member) or other_stores(iv, ini, member))[0]))
             else:
                 ck.ob(rule, key, False, "%s is read by apply() and filled here only at the structural non-zeros (%s), but nothing re-initialises it on every path before: "
                       "a second init_numeric() on the same object builds on the data of the previous factorisation" % (member, plist[0][1]), f.file, view.byid[first_use[0]].get("l"))
@@ -1594,6 +1865,11 @@ def check_wrapper(ck, fns, inst):
                 ck.ob(rule, "%s::%s" % (inst, name), False, "does not forward to the implementation object (it is never used)", f.file, f.line)
             continue
         problems = []
+        # const queries of the implementation object (name(), get_omega() in an assertion or a log line) are not forwarding calls
+        calls = [(e, n) for e, n in calls if n.get("n") == name or not n.get("cconst")]
+        if not calls:
+            ck.ob(rule, "%s::%s" % (inst, name), False, "does not forward to the implementation object (only const queries of it)", f.file, f.line)
+            continue
         for e, n in calls:
             if n.get("n") != name:
                 problems.append("forwards to _impl->%s" % n.get("n"))
@@ -1682,6 +1958,8 @@ def run(tier):
     S = Summaries(facts)
     # private helpers that no rule anchors by name (extracted blocks, forwarding overloads) are inlined, body and CFG
     inl = norm_c08.Inliner(facts)
+    BYDECL.clear()
+    BYDECL.update(inl.bydecl)
     not_anchored = lambda call, cal: cal.name not in ANCHORED
     classes = {}
     for f in facts.functions:
@@ -1707,13 +1985,15 @@ def run(tier):
             continue
         inst = short(cls)
         seen_kinds.add(kind)
-        check_apply(ck, ap, inst, kind)
+        INTERN_DEFINES[0] = False
         if kind in ("sor", "ssor"):
             if "_apply_intern" not in fl:
                 ck.incomplete("E2.sweep-triangular", "%s: _apply_intern vanished" % inst)
             else:
-                check_sweeps(ck, fl["_apply_intern"], inst, kind)
+                INTERN_DEFINES[0] = bool(check_sweeps(ck, fl["_apply_intern"], inst, kind))
                 check_omega_scale(ck, ap, inst, kind)
+        check_apply(ck, ap, inst, kind)
+        INTERN_DEFINES[0] = False
         if kind == "ilu":
             for nm, names, what in (("init_symbolic", ["set_struct", "factorize_symbolic", "alloc_data"], "symbolic factorisation"),
                                     ("init_numeric", ["copy_data", "factorize_numeric_il_du"], "numeric factorisation of the current values"),
